@@ -139,3 +139,33 @@ package rest
 //@   property C18
 //@   requires r != nil
 //@   ensures r.signature.enabled && r.signature.Strict == signature.Strict && r.signature.Expiry == signature.Expiry && sameSlice(r.signature.PrivateKeys, signature.PrivateKeys)
+
+// the route options write exactly what they are given into the group's settings (each is the only writer of its field)
+//@ func WithJwt closure 0
+//@   property C18
+//@   requires r != nil
+//@   ensures r.jwt.enabled && r.jwt.secret == secret && r.jwt.prevSecret == old(r.jwt.prevSecret)
+//@ func WithJwtTransition closure 0
+//@   property C18
+//@   requires r != nil
+//@   ensures r.jwt.enabled && r.jwt.secret == secret && r.jwt.prevSecret == prevSecret
+//@ func WithTimeout closure 0
+//@   property C04
+//@   requires r != nil
+//@   ensures r.timeout == timeout
+//@   modifies r.timeout
+//@ func WithSSE closure 0
+//@   property C04
+//@   requires r != nil
+//@   ensures r.sse && r.timeout == 0
+//@   modifies r.sse, r.timeout
+//@ func WithMaxBytes closure 0
+//@   property C18
+//@   requires r != nil
+//@   ensures r.maxBytes == maxBytes
+//@   modifies r.maxBytes
+//@ func validateSecret
+//@   property C18
+//@   ensures len(secret) >= 8
+//@   ensures_panic len(secret) < 8
+//@   modifies nothing
